@@ -30,7 +30,7 @@ CONSTANTS
     Quorum,         \* number of distinct valid signers that win >= k lottery indices (abstract quorum)
     MaxEpoch, MaxImm,
     LabelChecked,   \* TRUE: a signature is stored only under the party whose key made it;
-                    \* FALSE: the submitter's claimed party id is used as is (current code)
+                    \* FALSE: the submitter's claimed party id is used as is (the code before fix 315eab251)
     AtomicSeal,     \* TRUE: certificate insert + mark-certified are one step; FALSE: two steps (current code)
     RegSets         \* the sets of parties that may register together (bounds the exploration)
 
@@ -106,6 +106,16 @@ Sign(p, lbl, en) ==
     /\ sigs' = {s \in sigs : ~(s.entity = en /\ s.label = lbl)} \cup {[entity |-> en, label |-> lbl, owner |-> p]}
     /\ last' = [a |-> "Sign", who |-> p, label |-> lbl, entity |-> en]
     /\ UNCHANGED <<epoch, imm, recorded, roundFor, open, buffered, certs, arts, sm, sealing>>
+
+(* party p's valid signature submitted under another registered party's name: refused since the key   *)
+(* the signature was made with is compared with the key registered by the named party (no state       *)
+(* change); part of the environment so that generated schedules contain the attempt                    *)
+SignRelabelRefused(p, lbl, en) ==
+    /\ LabelChecked /\ p # lbl
+    /\ \E m \in open : m.entity = en /\ ~m.certified /\ ~m.expired
+    /\ p \in SignersOf(EntityEpoch(en)) /\ lbl \in SignersOf(EntityEpoch(en))
+    /\ last' = [a |-> "Sign", who |-> p, label |-> lbl, entity |-> en]
+    /\ UNCHANGED <<epoch, imm, recorded, roundFor, open, sigs, buffered, certs, arts, sm, sealing>>
 
 (* an authenticated signature for the current beacon of a type whose open message does not exist yet *)
 (* is buffered (BufferedCertifierService) and handed over when the open message is created            *)
@@ -296,6 +306,7 @@ Env == \/ \E n \in 1..2 : EpochUp(n)
        \/ \E p, lbl \in Party : \E en \in CurrentEntities : SignEarly(p, lbl, en)
        \/ \E p \in Party : \E en \in OpenEntities : SignLate(p, en)
        \/ \E p, lbl \in Party : \E en \in OpenEntities : SignBad(p, lbl, en)
+       \/ \E p, lbl \in Party : \E en \in OpenEntities : SignRelabelRefused(p, lbl, en)
        \/ \E en \in OpenEntities : Expire(en)
        \/ Restart \/ StopBeforeInsert
 
